@@ -35,7 +35,8 @@ CLS = "Subprocess"
 
 
 def _status_subst(e, status, cls):
-    table = {"WIFSIGNALED": cls == "sig", "WIFEXITED": cls != "sig", "WEXITSTATUS": 3 if cls == "exitN" else 0, "WTERMSIG": 9 if cls == "sig" else 0,
+    sg, term, ex = STATUS[cls]
+    table = {"WIFSIGNALED": sg, "WIFEXITED": not sg, "WEXITSTATUS": ex, "WTERMSIG": term,
              "WIFSTOPPED": False, "WCOREDUMP": False, "WIFCONTINUED": False}
 
     class T(ast.NodeTransformer):
@@ -47,7 +48,8 @@ def _status_subst(e, status, cls):
     return T().visit(copy.deepcopy(e))
 
 
-EXPECTED = {"sig": -9, "exit0": 0, "exitN": 3}
+STATUS = {"sig1": (True, 1, 0), "sig9": (True, 9, 0), "sig15": (True, 15, 0), "exit0": (False, 0, 0), "exit1": (False, 0, 1), "exit2": (False, 0, 2), "exit255": (False, 0, 255)}
+EXPECTED = {c: (-t if sg else ex) for c, (sg, t, ex) in STATUS.items()}
 
 
 def _cls_recv(d):
@@ -96,6 +98,12 @@ def rule_sigchld(ck):
     for n, c in hs:
         ok = len(c.args) >= 2 and q.dotted(c.args[0]) == "signal.SIGCHLD" and _cls_recv(q.dotted(c.args[1])) == "_cleanup"
         ck.ob("C42.sigchld", fi, c, ok, "SIGCHLD is routed to the poll-all handler _cleanup on the event loop")
+    facts = must_facts(fi.cfg)
+    for n, c in hs:
+        flags = [t for t, pol in facts[n.id] if not pol and _cls_recv(t) is not None]
+        ck.ob("C42.sigchld", fi, c, len(flags) == 1, "the handler is installed on the not-yet-initialised path (guard: %s is false)" % (flags[0] if flags else "<none>"), construct="installed-when-uninitialised")
+        reach = fi.cfg.reachable()
+        ck.ob("C42.sigchld", fi, c, n.id in reach, "the installation is reachable")
     cl = ck.func(F, CLS + "._cleanup")
     fors = [n for n in own_nodes(cl.node) if isinstance(n, ast.For)]
     if len(fors) != 1 or not isinstance(fors[0].target, ast.Name):
@@ -236,7 +244,7 @@ def rule_decode(ck, cb_attr):
     seen = explore(cfg, (frozenset(EXPECTED), False), tr, lambda t: False, edge_transfer=edge, follow_exc=False)
     nodes = {n.id: n for n in cfg.nodes}
     for (nid, c), ok in sorted(results.items()):
-        what = {"sig": "killed by signal N -> returncode == -N", "exit0": "exit status 0 -> returncode == 0", "exitN": "exit status N -> returncode == N"}[c]
+        what = "killed by signal %d -> returncode == %d" % (STATUS[c][1], EXPECTED[c]) if STATUS[c][0] else "exit status %d -> returncode == %d" % (STATUS[c][2], EXPECTED[c])
         ck.ob("C42.status-decoding", fi, nodes[nid].ast, ok, what, construct="%s: %s" % (c, q.unparse(nodes[nid].ast)))
     covered = {c for (_nid, c) in results}
     ck.ob("C42.status-decoding", fi, fi.node, covered == set(EXPECTED), "every exit class reaches an assignment of self.returncode (covered: %s)" % ",".join(sorted(covered)), construct="classes-covered " + ",".join(sorted(covered)))
@@ -398,6 +406,8 @@ MUTANTS = [
     ("SIGCHLD handler installed after the immediate poll", _m("set_exit_callback", _init_last), "C42.register-before-poll"),
     ("no immediate poll on registration", _m("set_exit_callback", remove_stmts(lambda st: "_try_cleanup_process" in _src(st))), "C42.register-before-poll"),
     ("exit callback invoked without clearing it", _m("_set_returncode", remove_stmts(lambda st: _src(st) == "self._exit_callback = None")), "C42.callback-once"),
+    ("seeded C42-adv1: _cleanup stops after the first reaped child", _m("_cleanup", replace_stmt(lambda st: isinstance(st, ast.Expr) and "_try_cleanup_process" in _src(st), lambda st: [parse_stmt("if cls._try_cleanup_process(pid):\n    break")])), "C42.cleanup-all"),
+    ("exit status masked to 7 bits", _m("_set_returncode", replace_expr(lambda n: isinstance(n, ast.Call) and _src(n) == "os.WEXITSTATUS(status)", lambda n: parse_expr("os.WEXITSTATUS(status) & 127"))), "C42.status-decoding"),
     ("positive signal number", _m("_set_returncode", replace_expr(lambda n: isinstance(n, ast.UnaryOp) and isinstance(n.op, ast.USub) and "WTERMSIG" in _src(n), lambda n: n.operand)), "C42.status-decoding"),
     ("WIFEXITED taken for WIFSIGNALED", _m("_set_returncode", replace_expr(lambda n: isinstance(n, ast.Call) and _src(n) == "os.WIFSIGNALED(status)", lambda n: parse_expr("os.WIFEXITED(status)"))), "C42.status-decoding"),
     ("_cleanup polls only while iterating the live table", _m("_cleanup", replace_expr(lambda n: isinstance(n, ast.Call) and isinstance(n.func, ast.Name) and n.func.id == "list", lambda n: n.args[0])), "C42.cleanup-all"),
@@ -409,6 +419,7 @@ MUTANTS = [
     ("wait_for_exit raises whenever raise_error is set or status is non-zero", _m("wait_for_exit", replace_expr(lambda n: isinstance(n, ast.BoolOp) and isinstance(n.op, ast.And) and "raise_error" in _src(n), lambda n: ast.BoolOp(op=ast.Or(), values=n.values))), "C42.wait-for-exit"),
     ("wait_for_exit ignores raise_error", _m("wait_for_exit", replace_expr(lambda n: isinstance(n, ast.BoolOp) and "raise_error" in _src(n), lambda n: n.values[0])), "C42.wait-for-exit"),
     ("wait_for_exit settles with raw set_result", _m("wait_for_exit", replace_expr(lambda n: isinstance(n, ast.Call) and _src(n.func) == "future_set_result_unless_cancelled", lambda n: parse_expr("future.set_result(ret)"))), "C42.settle"),
+    ("initialize() guard inverted: handler never installed", _m("initialize", replace_expr(lambda n: isinstance(n, ast.Attribute) and n.attr == "_initialized" and isinstance(n.ctx, ast.Load), lambda n: parse_expr("not cls._initialized"))), "C42.sigchld"),
     ("SIGCHLD routed to a single-pid poll", _m("initialize", replace_expr(lambda n: isinstance(n, ast.Attribute) and n.attr == "_cleanup", lambda n: parse_expr("cls._try_cleanup_process"))), "C42.sigchld"),
     ("callback gets the raw wait status", _m("_set_returncode", replace_expr(lambda n: isinstance(n, ast.Call) and _src(n) == "callback(self.returncode)", lambda n: parse_expr("callback(status)"))), "C42.callback-once"),
 ]
